@@ -23,7 +23,8 @@ OBLIGATIONS = ["NiftyVerif.C32." + t for t in (
     "leapfrog_jacobian_det_one", "leapfrog_linear_is_matrix",
     "metropolis_detailed_balance", "metropolis_invariant", "transitionProbability_eq",
     "exp_logaddexp", "logaddexp_weight_total", "merge_weight", "expit_keep", "progressive_sampling_step",
-    "nuts_slot_invariant", "nuts_subtree_count", "leapfrog_volume_preserving", "flip_volume_preserving")]
+    "nuts_slot_invariant", "nuts_subtree_count", "leapfrog_volume_preserving", "flip_volume_preserving",
+    "progressive_sampling_multinomial", "merge_multinomial", "chain_acceptance_is_mean")]
 RULE = ("leap case = (dimension 1..3, potential ½qᵀAq + Σb q⁴/4 + c·q or a non-polynomial one, diagonal inverse mass, step "
         "size, number of steps, start (q,p)); accrej case = the same plus a PRNG key; slots case = every leaf index n < 2^depth; "
         "non-trivial = non-zero force and momentum (leap), |u−p| outside the 1e-6 margin (accrej), odd n (slots)")
@@ -40,7 +41,7 @@ ASSUMPTIONS = ["NUTS transition invariance is tested (long fixed-key chains, 6 s
 
 
 # ------------------------------------------------------------------------------------------------------------
-def gen_leap(rng, quick=True, kind=None):
+def gen_leap(rng, quick=True, kind=None, big=None):
     kind = kind or rng.choice(["quad", "quad", "quartic", "quartic", "nonpoly"])
     d = rng.randint(1, 3)
     L = [[dyadic(rng, -1, 1, 2) if j <= i else Fraction(0) for j in range(d)] for i in range(d)]
@@ -52,7 +53,7 @@ def gen_leap(rng, quick=True, kind=None):
         b[0] = Fraction(1, 2)
     c = [dyadic(rng, -1, 1, 2) for _ in range(d)]
     minv = [dyadic(rng, 0.25, 2, 2, nonzero=True) for _ in range(d)]
-    big = rng.random() < 0.4            # large steps: sizeable energy errors, so that rejections actually happen
+    big = (rng.random() < 0.4) if big is None else big            # large steps: sizeable energy errors, so that rejections actually happen
     eps = dyadic(rng, 10, 20, 0) / 16 if big else dyadic(rng, 1, 8, 0, nonzero=True) / 16
     n = rng.randint(1, 2 if kind == "quartic" else (3 if big else 6))
     q = [dyadic(rng, -1.5, 1.5, 2) for _ in range(d)]
@@ -119,9 +120,8 @@ def real_all(c):
         en = lambda z: hmc.total_energy_of_qp(z, s.potential_energy, lambda m: s.kinetic_energy(s.inverse_mass_matrix, m))
 
         def steps(e, z):
-            for _ in range(n):
-                z = s.stepper(e, s.inverse_mass_matrix, z)
-            return z
+            # a rolled loop keeps the XLA program (and its compile time) independent of the number of steps
+            return jax.lax.fori_loop(0, n, lambda i, zz: s.stepper(e, s.inverse_mass_matrix, zz), z)
 
         def everything(v, key):
             fwd = lambda v: unqp(steps(eps, qp(v)))
@@ -175,6 +175,8 @@ def oracle(case):
         return _oracle_nuts(case)
     if case.get("sub") == "merge":
         return _oracle_merge_unit(case)
+    if case.get("sub") == "book":
+        return _oracle_book(case)
     r, a = _leap(case)
     sig = dict(sub="leap", kind=case["kind"])
     if is_err(r):
@@ -428,8 +430,100 @@ def _oracle_merge_unit(c):
     return None
 
 
+
+# ---- chain bookkeeping of hmc_oo (update_chain / init_chain) --------------------------------------------------------------
+def real_book(c):
+    """a short real chain with save_intermediates=True: samples, acceptance, divergences, depths vs the stored trees"""
+    def go():
+        jax = jax_setup()
+        import jax.numpy as jnp
+        from nifty.re import hmc, hmc_oo
+        d, mk, _ = TARGETS[c["target"]]
+        U = mk(jnp)
+        with warnings.catch_warnings():
+            warnings.simplefilter("ignore")
+            if c["sampler"] == "hmc":
+                s = hmc_oo.HMCChain(potential_energy=U, inverse_mass_matrix=c["minv"], position_proto=jnp.zeros(d),
+                                    num_steps=c["num_steps"], step_size=c["step_size"], max_energy_difference=c["thr"])
+            else:
+                s = hmc_oo.NUTSChain(potential_energy=U, inverse_mass_matrix=c["minv"], position_proto=jnp.zeros(d),
+                                     step_size=c["step_size"], max_tree_depth=c["depth"], max_energy_difference=c["thr"])
+            x0 = jnp.full((d,), 0.3)
+            chain, (key_out, last) = s.generate_n_samples(jax.random.PRNGKey(c["key"]), x0, c["N"], save_intermediates=True)
+        en = lambda q, p: float(U(q) + 0.5 * c["minv"] * jnp.sum(p ** 2))
+        out = dict(samples=np.asarray(chain.samples), acceptance=float(chain.acceptance),
+                   divergences=np.asarray(chain.divergences).tolist(), last=np.asarray(last), x0=np.asarray(x0))
+        t = chain.trees
+        if c["sampler"] == "hmc":
+            out.update(accepted=np.asarray(t.accepted).tolist(), diverging=np.asarray(t.diverging).tolist(),
+                       acc_q=np.asarray(t.accepted_qp.position), rej_q=np.asarray(t.rejected_qp.position),
+                       e_acc=[en(q, p) for q, p in zip(t.accepted_qp.position, t.accepted_qp.momentum)],
+                       e_rej=[en(q, p) for q, p in zip(t.rejected_qp.position, t.rejected_qp.momentum)])
+        else:
+            out.update(depths=np.asarray(chain.depths).tolist(), tdepth=np.asarray(t.depth).tolist(),
+                       cand=np.asarray(t.proposal_candidate.position), diverging=np.asarray(t.diverging).tolist(),
+                       cum=np.asarray(t.cumulative_acceptance).tolist())
+        return out
+    from core.ctx import canon
+    k = ("book", canon(c))
+    if k not in _LEAP_CACHE:
+        _LEAP_CACHE[k] = safe(go)
+    return _LEAP_CACHE[k]
+
+
+def _book_values(c, r):
+    """per-sample acceptance statistic the chain is supposed to average"""
+    if c["sampler"] == "hmc":
+        return [1.0 if a else 0.0 for a in r["accepted"]]
+    return [(cu / (2 ** dp - 1)) if dp > 0 else 0.0 for cu, dp in zip(r["cum"], r["tdepth"])]
+
+
+def _oracle_book(c):
+    r = real_book(c)
+    sig = dict(sub="book", sampler=c["sampler"])
+    if is_err(r):
+        return (f"{c['sampler']} chain with save_intermediates raised {r['error']}", dict(sig, what="error", error=r["error"]))
+    N = c["N"]
+    vals = _book_values(c, r)
+    if not abs(r["acceptance"] - float(np.mean(vals))) <= 1e-12:
+        return (f"chain.acceptance {r['acceptance']!r} is not the mean {float(np.mean(vals))!r} of the per-sample acceptance",
+                dict(sig, what="acceptance"))
+    if r["divergences"] != r["diverging"]:
+        return ("chain.divergences differ from the stored per-sample flags", dict(sig, what="divergences"))
+    if not np.array_equal(r["last"], r["samples"][-1]):
+        return ("the returned last position is not the last sample", dict(sig, what="last"))
+    if c["sampler"] == "hmc":
+        if not np.array_equal(r["samples"], r["acc_q"]):
+            return ("chain.samples are not the accepted positions", dict(sig, what="samples"))
+        prev = r["x0"]
+        for i in range(N):
+            init = r["rej_q"][i] if r["accepted"][i] else r["acc_q"][i]
+            if not np.array_equal(init, prev):
+                return (f"sample {i} did not start from the previous sample", dict(sig, what="chaining"))
+            prev = r["samples"][i]
+            de = abs(r["e_acc"][i] - r["e_rej"][i])
+            if abs(de - c["thr"]) > 1e-9 * max(1.0, c["thr"]) and r["diverging"][i] != (de > c["thr"]):
+                return (f"sample {i}: diverging={r['diverging'][i]} but |ΔE|={de:.6g}, max_energy_difference={c['thr']}",
+                        dict(sig, what="diverging"))
+    else:
+        if [int(x) for x in r["depths"]] != [int(x) for x in r["tdepth"]]:
+            return ("chain.depths differ from the stored tree depths", dict(sig, what="depths"))
+        if not np.array_equal(r["samples"], r["cand"]):
+            return ("chain.samples are not the trees' proposal candidates", dict(sig, what="samples"))
+    return None
+
+
 # ---- NUTS integer bookkeeping -------------------------------------------------------------------------------
+_BITS = {}
+
+
 def _real_bits(n):
+    if n not in _BITS:
+        _BITS[n] = _real_bits_uncached(n)
+    return _BITS[n]
+
+
+def _real_bits_uncached(n):
     jax_setup()
     import jax.numpy as jnp
     from jax import lax
@@ -512,14 +606,19 @@ def _oracle_chain(case):
 # ------------------------------------------------------------------------------------------------------------
 def run(ctx):
     rng = ctx.rng
-    cases = [gen_leap(rng, ctx.quick) for _ in range(ctx.n(12, 250))]
+    cases = [gen_leap(rng, ctx.quick) for _ in range(ctx.n(2, 250))]
     for k in ("quad", "quartic", "nonpoly"):
-        cases.append(gen_leap(rng, ctx.quick, kind=k))
-    lines = [dict(op="leapfrog", q=c["q"], p=c["p"], eps=c["eps"], n=c["n"], A=c["A"], b=c["b"], c=c["c"],
-                  minv=c["minv"]) for c in cases if c["kind"] != "nonpoly"]
-    outs = iter(ctx.model(DRIVER, lines))
-    acc_lines, acc_cases = [], []
-    for c in cases:
+        cases.append(gen_leap(rng, ctx.quick, kind=k, big=False))
+    for k in ("quad", "quad", "nonpoly"):
+        cases.append(gen_leap(rng, ctx.quick, kind=k, big=True))     # sizeable energy errors: rejections do happen
+    # ---- the real code first (oracles), collecting every model request; ONE driver call for the whole check ----------
+    batch = []
+
+    def ask(line):
+        batch.append(line)
+        return len(batch) - 1
+    leap_idx, acc_idx = {}, []
+    for ci, c in enumerate(cases):
         ctx.stat(f"kind={c['kind']}")
         ctx.stat(f"d={c['d']}")
         ctx.stat(f"steps={c['n']}")
@@ -528,58 +627,19 @@ def run(ctx):
         res = oracle(c)
         if res is not None:
             ctx.counterexample(c, *res)
-        r, a = _leap(c)
+        r, _ = _leap(c)
         if c["kind"] == "nonpoly":
             continue
-        m = next(outs)
-        if is_err(r) or is_err(m):
-            if not (is_err(r) and is_err(m)):
-                ctx.disagree(c, r if is_err(r) else "value", m, "leapfrog: error behaviour differs")
-            continue
-        mz = [fr(x) for x in m["q"]] + [fr(x) for x in m["p"]]
-        sc = max(1.0, max(abs(float(x)) for x in mz))
-        if not m.get("roundtrip_exact", True):
-            ctx.broke("correspondence", "model round trip", "the rational model did not return exactly (theorem instance)")
-        if not (allclose(r["z1"], mz, sc, 1e-11) and allclose([r["e0"], r["e1"]], [fr(m["energy0"]), fr(m["energy1"])],
-                                                             max(1.0, abs(r["e0"])), 1e-10)):
-            ctx.disagree(c, dict(z=[repr(float(x)) for x in r["z1"]], e=[r["e0"], r["e1"]]),
-                         dict(z=[repr(float(x)) for x in mz], e=[float(fr(m["energy0"])), float(fr(m["energy1"]))]),
-                         "class T: n leapfrog steps and energies, real stepper vs rational model")
-        for a in r["draws"]:
-            acc_lines.append(dict(op="accept", u=rs(a["u"]), e_init=rs(r["e0"]), e_prop=rs(r["e1"])))
-            acc_cases.append((c, a))
-    # accept/reject decisions replayed by the model from the recorded energies
-    for (c, a), m in zip(acc_cases, ctx.model(DRIVER, acc_lines)):
-        p = float(fr(m["p"]))
-        if abs(a["u"] - p) <= 1e-6 * max(1.0, p):
-            ctx.skipped_near_threshold += 1
-            continue
-        ctx.traces_validated += 1
-        ctx.stat("accept" if a["accepted"] else "reject")
-        if bool(m["accept"]) != a["accepted"]:
-            ctx.disagree(c, dict(accepted=a["accepted"], u=a["u"]), dict(accepted=m["accept"], p=p),
-                         "Metropolis decision replayed from recorded energies")
-    # NUTS integer bookkeeping: model vs real helpers, all leaf indices below 2^depth
+        leap_idx[ci] = ask(dict(op="leapfrog", q=c["q"], p=c["p"], eps=c["eps"], n=c["n"], A=c["A"], b=c["b"], c=c["c"],
+                                minv=c["minv"]))
+        if not is_err(r):
+            for a in r["draws"]:
+                acc_idx.append((c, a, ask(dict(op="accept", u=rs(a["u"]), e_init=rs(r["e0"]), e_prop=rs(r["e1"])))))
     depth = ctx.n(6, 10)
     ns = list(range(1, 2 ** depth))
-    mo = ctx.model(DRIVER, [dict(op="slots", n=n) for n in ns])
-    for n, m in zip(ns, mo):
-        c = dict(sub="slots", n=n)
-        ctx.case(c, nontrivial=n % 2 == 1)
-        if m["checked"] != m["expected"]:
-            ctx.broke("correspondence", "model slot invariant", f"n={n}: {m}")
-        if n < ctx.n(64, 256):
-            rb = safe(_real_bits, n)
-            if is_err(rb) or [rb[0], rb[1]] != [m["cto"], m["pop"]]:
-                ctx.disagree(c, rb, dict(cto=m["cto"], pop=m["pop"]), "count_trailing_ones / population_count")
-    for n in ([7, 11, 23, 31, 47, 63] if ctx.quick else list(range(1, 256, 2))):
-        res = _oracle_slots(dict(sub="slots", n=n))
-        if res is not None:
-            ctx.counterexample(dict(sub="slots", n=n), *res)
-    ctx.extra["slots_exhaustive_below"] = 2 ** depth
-    # NUTS: trace validation of the eagerly executed real tree builder + decisions replayed by the model
-    nuts = [gen_nuts(rng, ctx.quick) for _ in range(ctx.n(4, 40))]
-    nlines, nmeta = [], []
+    slot_idx = [ask(dict(op="slots", n=n)) for n in ns]
+    nuts = [gen_nuts(rng, ctx.quick) for _ in range(ctx.n(2, 40))]
+    nmeta = []
     for c in nuts:
         ctx.case(c, True)
         ctx.stat(f"nuts:depth<={c['depth']},bias={c['bias']}")
@@ -593,12 +653,81 @@ def run(ctx):
         ctx.stat("nuts:merges", len(r["merges"]))
         ctx.stat("nuts:adds", len(r["adds"]))
         for a in r["adds"]:
-            nlines.append(dict(op="keep", u=rs(a["u"]), w_old=rs(a["w_old"]), neg_energy=rs(-r["energy"][a["leaf"]])))
-            nmeta.append((c, "remain", a["cand"] == a["old"], a["old"] == a["leaf"], a["u"]))
+            i = ask(dict(op="keep", u=rs(a["u"]), w_old=rs(a["w_old"]), neg_energy=rs(-r["energy"][a["leaf"]])))
+            nmeta.append((c, "remain", a["cand"] == a["old"], a["old"] == a["leaf"], a["u"], i))
         for m in r["merges"]:
-            nlines.append(dict(op="merge", u=rs(m["u"]), w_new=rs(m["w_new"]), w_cur=rs(m["w_cur"]), bias=m["bias"]))
-            nmeta.append((c, "take_new", m["cand"] == m["c_new"], m["c_cur"] == m["c_new"], m["u"]))
-    for (c, fld, impl, ambiguous, u), m in zip(nmeta, ctx.model(DRIVER, nlines)):
+            i = ask(dict(op="merge", u=rs(m["u"]), w_new=rs(m["w_new"]), w_cur=rs(m["w_cur"]), bias=m["bias"]))
+            nmeta.append((c, "take_new", m["cand"] == m["c_new"], m["c_cur"] == m["c_new"], m["u"], i))
+    books = [dict(sub="book", sampler="hmc", target=rng.choice(["gauss1", "quartic1", "gauss2"]), N=12, num_steps=4,
+                  step_size=rng.choice([0.5, 0.9, 1.3]), minv=rng.choice([0.5, 1.0]), thr=rng.choice([0.05, 0.3, 1.0]),
+                  key=rng.randint(0, 2 ** 31 - 1)) for _ in range(ctx.n(1, 6))]
+    if not ctx.quick:
+        books += [dict(sub="book", sampler="nuts", target="gauss1", N=8, depth=3, step_size=0.7, minv=1.0, thr=0.5,
+                       key=rng.randint(0, 2 ** 31 - 1)) for _ in range(2)]
+    book_idx = []
+    for c in books:
+        ctx.case(c, True)
+        ctx.stat(f"book:{c['sampler']}")
+        res = _oracle_book(c)
+        if res is not None:
+            ctx.counterexample(c, *res)
+        r = real_book(c)
+        if not is_err(r):
+            book_idx.append((c, r, ask(dict(op="accrun", values=[rs(v) for v in _book_values(c, r)]))))
+    outs = ctx.model(DRIVER, batch)
+    for c, r, i in book_idx:
+        if not abs(float(fr(outs[i]["acceptance"])) - r["acceptance"]) <= 1e-12:
+            ctx.disagree(c, dict(acceptance=r["acceptance"]), outs[i], "class T: chain acceptance vs the model's update_chain fold")
+    # ---- leapfrog correspondence -------------------------------------------------------------------------------------
+    for ci, c in enumerate(cases):
+        if ci not in leap_idx:
+            continue
+        r, _ = _leap(c)
+        m = outs[leap_idx[ci]]
+        if is_err(r) or is_err(m):
+            if not (is_err(r) and is_err(m)):
+                ctx.disagree(c, r if is_err(r) else "value", m, "leapfrog: error behaviour differs")
+            continue
+        mz = [fr(x) for x in m["q"]] + [fr(x) for x in m["p"]]
+        sc = max(1.0, max(abs(float(x)) for x in mz))
+        if not m.get("roundtrip_exact", True):
+            ctx.broke("correspondence", "model round trip", "the rational model did not return exactly (theorem instance)")
+        if not (allclose(r["z1"], mz, sc, 1e-11) and allclose([r["e0"], r["e1"]], [fr(m["energy0"]), fr(m["energy1"])],
+                                                             max(1.0, abs(r["e0"])), 1e-10)):
+            ctx.disagree(c, dict(z=[repr(float(x)) for x in r["z1"]], e=[r["e0"], r["e1"]]),
+                         dict(z=[repr(float(x)) for x in mz], e=[float(fr(m["energy0"])), float(fr(m["energy1"]))]),
+                         "class T: n leapfrog steps and energies, real stepper vs rational model")
+    # accept/reject decisions replayed by the model from the recorded energies
+    for c, a, i in acc_idx:
+        m = outs[i]
+        p = float(fr(m["p"]))
+        if abs(a["u"] - p) <= 1e-6 * max(1.0, p):
+            ctx.skipped_near_threshold += 1
+            continue
+        ctx.traces_validated += 1
+        ctx.stat("accept" if a["accepted"] else "reject")
+        if bool(m["accept"]) != a["accepted"]:
+            ctx.disagree(c, dict(accepted=a["accepted"], u=a["u"]), dict(accepted=m["accept"], p=p),
+                         "Metropolis decision replayed from recorded energies")
+    # NUTS integer bookkeeping: model vs real helpers, all leaf indices below 2^depth
+    for n, i in zip(ns, slot_idx):
+        m = outs[i]
+        c = dict(sub="slots", n=n)
+        ctx.case(c, nontrivial=n % 2 == 1)
+        if m["checked"] != m["expected"]:
+            ctx.broke("correspondence", "model slot invariant", f"n={n}: {m}")
+        if n < ctx.n(64, 256):
+            rb = safe(_real_bits, n)
+            if is_err(rb) or [rb[0], rb[1]] != [m["cto"], m["pop"]]:
+                ctx.disagree(c, rb, dict(cto=m["cto"], pop=m["pop"]), "count_trailing_ones / population_count")
+    for n in ([7, 11, 23, 31, 47, 63] if ctx.quick else list(range(1, 256, 2))):
+        res = _oracle_slots(dict(sub="slots", n=n))
+        if res is not None:
+            ctx.counterexample(dict(sub="slots", n=n), *res)
+    ctx.extra["slots_exhaustive_below"] = 2 ** depth
+    # NUTS decisions replayed by the model from the recorded weights
+    for c, fld, impl, ambiguous, u, i in nmeta:
+        m = outs[i]
         p = float(fr(m["p"]))
         if ambiguous:
             continue
@@ -617,8 +746,10 @@ def run(ctx):
         if res is not None:
             ctx.counterexample(c, *res)
     # chains: a statistical TEST of invariance (fixed keys, 6 sigma)
-    chains = [dict(sub="chain", sampler="hmc", target="gauss1", N=ctx.n(3000, 20000), num_steps=7, step_size=0.9, minv=0.25),
-              dict(sub="chain", sampler="nuts", target="gauss1", N=ctx.n(800, 8000), depth=4, step_size=0.6)]
+    chains = [dict(sub="chain", sampler="hmc", target="gauss1", N=ctx.n(2000, 20000), num_steps=7, step_size=0.9, minv=0.25),
+              dict(sub="chain", sampler="nuts", target="gauss1", N=8000, depth=4, step_size=0.6)]
+    if ctx.quick:
+        chains = chains[:1]      # the NUTS chain (XLA compile of the tree builder) is thorough-only; quick has the trace validation
     if not ctx.quick:
         for t in ("quartic1", "gauss2", "shifted1"):
             chains.append(dict(sub="chain", sampler="hmc", target=t, N=20000, num_steps=6, step_size=0.25))
